@@ -42,6 +42,8 @@ type senv struct {
 	fn     *ssa.Function // function whose locals may be named (own function only)
 	bound  map[string]bool
 	depth  int
+	callerPtrs []string // non-nil when a callee contract is instantiated at a call site: fresh(x) also means distinct from these
+	callerSide bool
 }
 
 func (e *senv) child() *senv {
@@ -744,6 +746,8 @@ func (c *evalCtx) call(x *ast.CallExpr) *sv {
 		return intSV("(scap " + c.rv1(c.eval(args[0])) + ")")
 	case "forall", "exists":
 		return c.quant(name, args)
+	case "forallv", "existsv":
+		return c.quantV(name, args)
 	case "seq":
 		need(1)
 		return c.seqOf(c.eval(args[0]))
@@ -762,6 +766,9 @@ func (c *evalCtx) call(x *ast.CallExpr) *sv {
 	case "seqat":
 		need(2)
 		return intSV(fmt.Sprintf("(seq_at %s %s)", c.toSeq(c.eval(args[0])), c.rv1(c.eval(args[1]))))
+	case "unit":
+		need(1)
+		return &sv{sort: "seq", terms: []string{fmt.Sprintf("(seq_unit %s)", c.rv1(c.eval(args[0])))}}
 	case "empty":
 		need(0)
 		return &sv{sort: "seq", terms: []string{"seq_empty"}}
@@ -820,6 +827,21 @@ func (c *evalCtx) call(x *ast.CallExpr) *sv {
 			c.fail("addr of non-lvalue")
 		}
 		return &sv{sort: "loc", terms: []string{v.addr}, ty: types.NewPointer(v.ty)}
+	case "fresh":
+		// fresh(x): the object x refers to did not exist when the function was entered
+		need(1)
+		v := c.eval(args[0])
+		r := refOf(v.sort, c.rv1(v))
+		if r == "" {
+			c.fail("fresh of non-reference sort %q", v.sort)
+		}
+		conj := []string{fmt.Sprintf("(> %s 0)", r), fmt.Sprintf("(not (existed %s))", r)}
+		if c.env.callerSide {
+			for _, p := range c.env.callerPtrs {
+				conj = append(conj, fmt.Sprintf("(distinct %s %s)", r, p))
+			}
+		}
+		return boolSV("(and " + strings.Join(conj, " ") + ")")
 	case "unchanged":
 		var conj []string
 		for _, a := range args {
@@ -901,7 +923,7 @@ func (c *evalCtx) call(x *ast.CallExpr) *sv {
 		if c.env.depth > 20 {
 			c.fail("predicate recursion too deep")
 		}
-		ne := &senv{t: c.t, vars: map[string]*sv{}, lets: map[string]ast.Expr{}, depth: c.env.depth + 1}
+		ne := &senv{t: c.t, vars: map[string]*sv{}, lets: map[string]ast.Expr{}, depth: c.env.depth + 1, callerSide: c.env.callerSide, callerPtrs: c.env.callerPtrs}
 		ne.pkg = c.env.pkg
 		if p.Pkg != "" {
 			if pp := c.t.eng.pkgs[p.Pkg]; pp != nil {
@@ -1002,10 +1024,13 @@ func (c *evalCtx) seqOf(v *sv) *sv {
 	if v.ty != nil {
 		if a, ok := v.ty.Underlying().(*types.Array); ok && leafSort(a.Elem()) == "int" {
 			if v.addr != "" && v.terms == nil {
-				p := v.addr
-				return &sv{sort: "seq", terms: []string{fmt.Sprintf("(seqof (select (select %s (ltyp %s)) (lref %s)) (lcell %s) %d)", c.t.H(c.cur, "H_int"), p, p, p, a.Len())}}
+				pa, pb, pc := locParts(v.addr)
+				return &sv{sort: "seq", terms: []string{fmt.Sprintf("(seqof (select (select %s %s) %s) %s %d)", c.t.H(c.cur, "H_int"), pa, pb, pc, a.Len())}}
 			}
-			// array value: build from components
+			// array value: fixed-size sequence constructor over the components
+			if seqNSizes[int(a.Len())] {
+				return &sv{sort: "seq", terms: []string{fmt.Sprintf("(seq%d %s)", a.Len(), strings.Join(v.terms, " "))}}
+			}
 			arr := "((as const (Array Int Int)) 0)"
 			for i, tm := range v.terms {
 				arr = fmt.Sprintf("(store %s %d %s)", arr, i, tm)
@@ -1121,13 +1146,19 @@ func (c *evalCtx) quant(kind string, args []ast.Expr) *sv {
 		q = fmt.Sprintf("(and %s %s)", rangeC, body)
 	}
 	if pat != "" {
-		return boolSV(fmt.Sprintf("(%s ((%s Int)) (! %s :pattern (%s)))", kind, qv, q, pat))
+		var ps strings.Builder
+		for _, p := range strings.Split(pat, "\x00") {
+			fmt.Fprintf(&ps, " :pattern (%s)", p)
+		}
+		return boolSV(fmt.Sprintf("(%s ((%s Int)) (! %s%s))", kind, qv, q, ps.String()))
 	}
 	return boolSV(fmt.Sprintf("(%s ((%s Int)) %s)", kind, qv, q))
 }
 
 // findPattern picks the smallest application term `(f ... qv ...)` with f uninterpreted/select that has qv as a direct argument.
 func findPattern(body, qv string) string {
+	var all []string
+	seen := map[string]bool{}
 	best := ""
 	for i := 0; i < len(body); i++ {
 		if body[i] != '(' {
@@ -1168,12 +1199,27 @@ func findPattern(body, qv string) string {
 					direct = true
 				}
 			}
-			if direct && !strings.Contains(term, "ite") && (best == "" || len(term) < len(best)) {
-				best = term
+			if direct && !strings.Contains(term, "ite") && !seen[term] {
+				seen[term] = true
+				all = append(all, term)
 			}
 		}
 	}
-	return best
+	_ = best
+	// alternatives: every minimal candidate (none containing another candidate), at most 4
+	var out []string
+	for _, a := range all {
+		minimal := true
+		for _, b := range all {
+			if a != b && strings.Contains(a, b) {
+				minimal = false
+			}
+		}
+		if minimal && len(out) < 4 {
+			out = append(out, a)
+		}
+	}
+	return strings.Join(out, "\x00")
 }
 
 func splitSexprArgs(term string) []string {
@@ -1200,4 +1246,55 @@ func splitSexprArgs(term string) []string {
 		out = append(out, inner[last:])
 	}
 	return out
+}
+
+var seqNSizes = map[int]bool{2: true, 8: true, 12: true, 16: true, 32: true, 64: true}
+
+// quantV: forallv("x:seq y:str n:int", body [, trigger terms...])
+func (c *evalCtx) quantV(kind string, args []ast.Expr) *sv {
+	if len(args) < 2 {
+		c.fail("%s(decls, body, triggers...)", kind)
+	}
+	bl, ok := args[0].(*ast.BasicLit)
+	if !ok {
+		c.fail("%s: first argument must be a string of name:sort declarations", kind)
+	}
+	ne := c.env.child()
+	nc := *c
+	nc.env = ne
+	var binders []string
+	for _, d := range strings.Fields(unquote(bl.Value)) {
+		p := strings.SplitN(d, ":", 2)
+		if len(p) != 2 {
+			c.fail("bad declaration %q", d)
+		}
+		c.t.nfresh++
+		qv := fmt.Sprintf("q%d_%s", c.t.nfresh, p[0])
+		sort := ghostValSort(p[1])
+		var ty types.Type
+		switch sort {
+		case "int":
+			ty = types.Typ[types.Int]
+		case "str":
+			ty = types.Typ[types.String]
+		case "bool":
+			ty = types.Typ[types.Bool]
+		}
+		ne.vars[p[0]] = &sv{sort: sort, terms: []string{qv}, ty: ty}
+		binders = append(binders, fmt.Sprintf("(%s %s)", qv, smtSort(sort)))
+	}
+	body := nc.rv1(nc.eval(args[1]))
+	var pats []string
+	for _, a := range args[2:] {
+		v := nc.eval(a)
+		pats = append(pats, nc.rv(v)...)
+	}
+	q := "forall"
+	if kind == "existsv" {
+		q = "exists"
+	}
+	if len(pats) > 0 {
+		return boolSV(fmt.Sprintf("(%s (%s) (! %s :pattern (%s)))", q, strings.Join(binders, " "), body, strings.Join(pats, " ")))
+	}
+	return boolSV(fmt.Sprintf("(%s (%s) %s)", q, strings.Join(binders, " "), body))
 }
